@@ -187,11 +187,11 @@ Qed.
    answered, now with the connection open during the whole execution: its blocking sendQueued transmits
    1, replay of 1, 2, replay of 1 — a first-time message between two replayed ones inside one resendMessages
    execution.  (The engine itself sends a Logon through dropAndSend after every connect, which empties toSend first;
-   the arbitrary session programs of the model do not: hence the window in c02_rstate_conn.)  76 steps. *)
+   the arbitrary session programs of the model do not: hence the window in c02_rstate_conn.)  78 steps. *)
 Definition c02g_refute_sess : list cop := [OSetOut false 0; OResend 1 1 []; OSetOut true 100; OResend 1 1 []].
 Definition c02g_refute_apps : list (list cmsg) := [[MApp false; MApp false]].
 Definition c02g_refute_sched : list (nat * bool) :=
-  map (fun t => (t, false)) (repeat 1%nat 14 ++ repeat 0%nat 26 ++ repeat 1%nat 14 ++ repeat 0%nat 22).
+  map (fun t => (t, false)) (repeat 1%nat 14 ++ repeat 0%nat 27 ++ repeat 1%nat 14 ++ repeat 0%nat 23).
 
 Lemma c02g_replay_needs_window :
   exists sess apps sched s,
@@ -232,7 +232,7 @@ Definition c02g_ex_sess : list cop :=
    OSend MAdmin; OResend 1 4 []; OFlush].
 Definition c02g_ex_apps : list (list cmsg) := [[MApp false]; [MApp false; MApp false]].
 Definition c02g_ex_sched : list (nat * bool) :=
-  map (fun t => (t, false)) (repeat 1%nat 14 ++ repeat 0%nat 9 ++ repeat 2%nat 14 ++ repeat 0%nat 84 ++ repeat 2%nat 14).
+  map (fun t => (t, false)) (repeat 1%nat 14 ++ repeat 0%nat 9 ++ repeat 2%nat 14 ++ repeat 0%nat 87 ++ repeat 2%nat 14).
 
 Lemma c02g_example_run :
   forallb cop_ok c02g_ex_sess = true /\ cmsgs_ok c02g_ex_apps = true /\
